@@ -11,6 +11,7 @@ R-EDGE     template_t::add_edge is the only writer of an edge's endpoints, sets 
 """
 from ..front import AnalysisBroken
 from ..facts import walk, calls, short
+from ..inline import expanded_fn, mutable_uses
 
 STABLE = ("std::list<", "std::deque<", "list<", "deque<")
 MOVING_OPS = {"insert", "emplace", "erase", "resize", "assign", "swap", "sort", "clear", "pop_front", "push_front",
@@ -179,11 +180,12 @@ def run_edge(chk, F, rid="R-EDGE"):
     where = "%s:%s" % (ae["file"], ae["line"])
     END = ("src", "srcb", "dst", "dstb")
     writers = set()
+    is_end = lambda n: n.get("k") == "member" and n.get("name") in END and n.get("of") == "UTAP::edge_t"  # noqa: E731
     for fn in F.functions.values():
-        for n in walk(fn.get("body")):
-            if n.get("k") == "bin" and n.get("op") == "=" and n["lhs"].get("k") == "member" and \
-                    n["lhs"].get("name") in END and n["lhs"].get("of") == "UTAP::edge_t":
-                writers.add(fn["q"])
+        # assigned, or handed out as something that can be assigned through (non-const reference, address)
+        if fn.get("body") is not None and mutable_uses(fn["body"], is_end):
+            writers.add(fn["q"])
+    ae = expanded_fn(ae, F)     # `attach(src, edge.src, edge.srcb)` with a local lambda / file-local helper
     chk.ob(rid, "only-writer", writers == {"UTAP::template_t::add_edge"},
            "endpoints of an edge are written outside template_t::add_edge: %s" % sorted(writers - {ae["q"]}), where)
     # the if/else pairs
